@@ -309,9 +309,17 @@ func (s *c05sys) prepRec(op c05op) (entities.Record, func()) {
 	flowType, from := uint8(1), aggfix.Both
 	if op.stream != aggfix.Both {
 		flowType, from = 2, op.stream
+	} else if op.key == 2 {
+		// the IPv6 single-stream flow comes from outside the cluster: one reporting stream as well (only the
+		// destination node sees it), whatever the flow type is called
+		flowType, from = 4, aggfix.Dst
 	}
 	start := c05StartOf(gi)
-	rec := aggfix.Record(aggfix.Spec{Key: op.key, FlowType: flowType, Egress: 1, From: from, Start: start, End: end,
+	layout := 0
+	if op.stream == aggfix.Dst {
+		layout = 1 // the destination node's exporter lists the same fields in another order (same template id)
+	}
+	rec := aggfix.Record(aggfix.Spec{Key: op.key, FlowType: flowType, Egress: 1, From: from, Start: start, End: end, Layout: layout,
 		PktTot: tot[0], OctTot: tot[1], RPktTot: tot[2], ROctTot: tot[3], PktDelta: dl[0], OctDelta: dl[1], RPktDelta: dl[2], ROctDelta: dl[3], TCPState: "ESTABLISHED"})
 	return rec, func() {
 		f, ok := s.model[op.key]
